@@ -195,6 +195,12 @@ class SpanWrappingMatcher(wrappers.WrappingMatcher):
         if self.is_active():
             self._find_next()
 
+    def reset(self):
+        self.child.reset()
+        self._spans = None
+        if self.is_active():
+            self._find_next()
+
     def copy(self):
         m = self.__class__(self.child.copy())
         m._spans = self._spans
